@@ -29,13 +29,13 @@ func init() {
 		Flavours: releaseThenGo126,
 		Required: []string{"kind/legacy", "kind/legacy+version", "kind/BytesValue", "kind/StringValue", "kind/BytesValue+version",
 			"body/0", "body/1", "body/70000", "ver/len=0", "ver/len=16", "ver/interior-NUL", "chunk/whole", "chunk/one-byte", "chunk/random", "chunk/data+EOF", "chunk/zero-reads",
-			"stream/frames=1", "stream/frames>=4", "stream/eof-after-last", "target/reused", "target/reused-for-empty-body", "stream/frame>1MiB-followed-by-frames"},
+			"stream/frames=1", "stream/frames>=4", "stream/eof-after-last", "target/reused", "target/reused-for-empty-body", "stream/frame>1MiB-followed-by-frames", "reader/std-type"},
 		Families: func(c *mon.Config) []mon.Family {
 			return []mon.Family{
 				{Name: "frames", N: pbNKinds * (len(c06BodyLens) + 1) * 17 * c.Pick(2, 100), Run: c06Frames},
-				{Name: "streams", N: c.Pick(20000, 3000000), Run: c06Streams},
-				{Name: "reused-target", N: pbNKinds * chNModes * c.Pick(10, 2000), Run: c06Reuse},
-				{Name: "big-body-streams", N: pbNKinds * 3 * 4 * c.Pick(1, 6), Run: c06BigStreams},
+				{Name: "streams", Env: 10, N: c.Pick(20000, 3000000), Run: c06Streams},
+				{Name: "reused-target", Env: 5, N: pbNKinds * chNModes * c.Pick(10, 2000), Run: c06Reuse},
+				{Name: "big-body-streams", Env: 2, N: pbNKinds * 3 * 4 * c.Pick(1, 6), Run: c06BigStreams},
 			}
 		},
 	})
@@ -107,13 +107,26 @@ func c06CheckMarshal(w *mon.W, c pbCase) ([]byte, bool) {
 	return append([]byte(nil), wire...), true
 }
 
+var c06NStd = len(stdReaders(nil))
+
 // c06CheckStream unmarshals every frame of a stream through one chunking reader.
 func c06CheckStream(w *mon.W, cases []pbCase, frames [][]byte, mode int, reuse bool) bool {
 	var stream []byte
 	for _, f := range frames {
 		stream = append(stream, f...)
 	}
-	cr := newChunkReader(stream, mode, w.Rng)
+	// mode < chNModes: our chunking reader; above: a reader type of the standard library (stdReaders)
+	var cr io.Reader
+	var delivered func() int
+	modeName := ""
+	if mode < chNModes {
+		c := newChunkReader(stream, mode, w.Rng)
+		cr, delivered, modeName = c, func() int { return c.delivered }, chNames[mode]
+	} else {
+		sr := stdReaders(stream)[(mode-chNModes)%c06NStd]
+		cr, delivered, modeName = sr.r, sr.consumed, sr.name
+		w.Bucket("reader/std-type")
+	}
 	consumed := 0
 	// targets are reused between frames of the same kind (odd chunking modes; always when reuse is
 	// forced): "yields an equal message" must also hold when the target still holds an earlier frame
@@ -136,14 +149,14 @@ func c06CheckStream(w *mon.W, cases []pbCase, frames [][]byte, mode int, reuse b
 		w.Eval(1)
 		consumed += len(frames[i])
 		d := func() mon.D {
-			return mon.D{"frame": i, "of": len(cases), "kind": pbKindNames[c.Kind], "version": fmt.Sprintf("%q", c.Ver), "body_len": len(frames[i]) - 32, "chunking": chNames[mode],
-				"returned_n": n, "returned_version": fmt.Sprintf("%q", ver), "err": errStr(err), "reader_delivered": cr.delivered, "expected_consumed": consumed}
+			return mon.D{"frame": i, "of": len(cases), "kind": pbKindNames[c.Kind], "version": fmt.Sprintf("%q", c.Ver), "body_len": len(frames[i]) - 32, "chunking": modeName,
+				"returned_n": n, "returned_version": fmt.Sprintf("%q", ver), "err": errStr(err), "reader_delivered": delivered(), "expected_consumed": consumed}
 		}
 		if err != nil {
 			w.Fail("Unmarshal/error-on-valid-frame", d())
 			return false
 		}
-		if int(n) != len(frames[i]) || cr.delivered != consumed {
+		if dl := delivered(); int(n) != len(frames[i]) || (dl >= 0 && dl != consumed) {
 			w.Fail("Unmarshal/count-or-consumption", d())
 			return false
 		}
@@ -162,7 +175,7 @@ func c06CheckStream(w *mon.W, cases []pbCase, frames [][]byte, mode int, reuse b
 	w.Eval(1)
 	w.Bucket("stream/eof-after-last")
 	if n != 0 || ver != "" || !pbIs(err, io.EOF) {
-		w.Fail("Unmarshal/after-last-frame", mon.D{"n": n, "version": ver, "err": errStr(err), "chunking": chNames[mode]})
+		w.Fail("Unmarshal/after-last-frame", mon.D{"n": n, "version": ver, "err": errStr(err), "chunking": modeName})
 		return false
 	}
 	return true
@@ -206,6 +219,11 @@ func c06Frames(w *mon.W, idx int) {
 			return
 		}
 	}
+	for j := 0; j < 3; j++ {
+		if !c06CheckStream(w, []pbCase{c}, [][]byte{frame}, chNModes+(3*idx+j)%c06NStd, false) {
+			return
+		}
+	}
 	if len(c.body()) > 0 || (c.versioned() && c.Ver != "1.0.0") {
 		w.Distinct(gen.Hash64(uint64(kind), gen.HashStr(c.expVer()), gen.HashBytes(c.Payload)))
 	}
@@ -230,7 +248,11 @@ func c06Streams(w *mon.W, idx int) {
 		frames = append(frames, f)
 	}
 	mode := idx % chNModes
-	w.Bucket("chunk/" + chNames[mode])
+	if (idx/chNModes)%3 == 2 {
+		mode = chNModes + (idx/chNModes/3)%c06NStd
+	} else {
+		w.Bucket("chunk/" + chNames[mode])
+	}
 	if nf == 1 {
 		w.Bucket("stream/frames=1")
 	}
@@ -253,7 +275,7 @@ func c06Streams(w *mon.W, idx int) {
 		for _, f := range frames {
 			ls = append(ls, len(f))
 		}
-		return mon.D{"frames": nf, "frame_lengths": ls, "chunking": chNames[mode]}
+		return mon.D{"frames": nf, "frame_lengths": ls, "reader_mode": mode}
 	})
 }
 
